@@ -1455,6 +1455,12 @@ func (e *Engine) ghostMapAxiom(gname string, n int) {
 	}
 	t := app(SInt, gname, args...)
 	e.assumeGlobal(Forall(vars, And(Lt(t, I(0)), Eq(Mod(t, I(64)), fam))), "ghost map references are negative; families are disjoint")
+	if n == 1 {
+		// different identities own different maps: injectivity through an inverse function
+		inv := gname + "_inv"
+		e.declareUF(inv, fmt.Sprintf("(declare-fun %s (Int) Int)", inv))
+		e.assumeGlobal(Forall(vars, Eq(app(SInt, inv, t), args[0])), "ghost maps of different identities are different maps")
+	}
 }
 
 type bytesOp struct{ arr, off, n T }
